@@ -278,6 +278,38 @@ func sectionA(c *vf.Ctx, a *alg, path string, cs []caseA) {
 			c.Violation(a.class("digest != RFC 7693 ["+path+"] (size/key grid)"),
 				map[string]any{"path": path, "size": x.size, "keylen": x.klen, "msglen": x.mlen, "got": fmt.Sprintf("%x", got), "want": fmt.Sprintf("%x", x.want)})
 		}
+		// dimension A (the caller owns its buffers): a second object is built from PRIVATE
+		// copies of key and message which the caller overwrites as soon as New / Write
+		// return; the digest, and the digest after Reset, must still be those of the
+		// ORIGINAL key. Write must leave its argument untouched, Sum's result is the caller's.
+		var pkey []byte
+		if x.klen > 0 {
+			pkey = append([]byte(nil), x.key...)
+		}
+		h2, err := a.newHash(x.size, pkey)
+		c.Eval(2)
+		if err != nil {
+			return
+		}
+		clobber(pkey)
+		pmsg := append([]byte(nil), x.msg...)
+		h2.Write(pmsg)
+		if !bytes.Equal(pmsg, x.msg) {
+			c.Violation(a.class("Write modifies the caller's message buffer ["+path+"]"), map[string]any{"size": x.size, "keylen": x.klen, "msglen": x.mlen})
+		}
+		clobber(pmsg)
+		got2 := h2.Sum(nil)
+		if !bytes.Equal(got2, x.want) {
+			c.Violation(a.class("digest depends on key/message buffers the caller overwrote after New/Write returned ["+path+"]"),
+				map[string]any{"path": path, "size": x.size, "keylen": x.klen, "msglen": x.mlen, "got": fmt.Sprintf("%x", got2), "want": fmt.Sprintf("%x", x.want)})
+		}
+		clobber(got2)
+		h2.Reset()
+		h2.Write(x.msg)
+		if got3 := h2.Sum(nil); !bytes.Equal(got3, x.want) {
+			c.Violation(a.class("Reset does not restore the keyed initial state of the ORIGINAL key once the caller overwrote its key buffer ["+path+"]"),
+				map[string]any{"path": path, "size": x.size, "keylen": x.klen, "msglen": x.mlen, "got": fmt.Sprintf("%x", got3), "want": fmt.Sprintf("%x", x.want)})
+		}
 		if x.klen > 0 || x.size != a.maxSize || x.mlen > a.B {
 			c.Nontrivial(fmt.Sprintf("A/%s/%s/%d/%d/%d", a.name, path, x.size, x.klen, x.mlen))
 		}
@@ -409,6 +441,13 @@ func sectionB(c *vf.Ctx, a *alg, path string, cs []caseB) {
 		if failed {
 			return
 		}
+		// dimension D (non-initial states): the same message from a state reached by a short
+		// history - a Sum in the middle at every cut (all cuts for the full configs, the
+		// boundary cuts otherwise), and a Reset of an object that already absorbed x.L
+		// other bytes (so every buffer offset / counter state is Reset once).
+		if !sectionBStates(c, a, path, x) {
+			return
+		}
 		if f, ok := a.oneShot[x.cf.size]; ok && len(x.cf.key) == 0 {
 			c.Eval(1)
 			if got := f(x.msg); !bytes.Equal(got, x.want) {
@@ -423,6 +462,75 @@ func sectionB(c *vf.Ctx, a *alg, path string, cs []caseB) {
 			c.Sample(map[string]any{"section": "B", "alg": a.name, "path": path, "size": x.cf.size, "keylen": len(x.cf.key), "msglen": x.L, "chunkings": nplans})
 		}
 	})
+}
+
+func sectionBStates(c *vf.Ctx, a *alg, path string, x *caseB) bool {
+	B, L := a.B, x.L
+	bad := func(what string, cut int, got []byte) bool {
+		c.Violation(a.class(what+" ["+path+"]"),
+			map[string]any{"path": path, "size": x.cf.size, "keylen": len(x.cf.key), "msglen": L, "class": x.class, "cut": cut,
+				"got": fmt.Sprintf("%x", got), "want": fmt.Sprintf("%x", x.want)})
+		return false
+	}
+	midSum := func(cut int) bool {
+		h, err := a.newHash(x.cf.size, x.cf.key)
+		if err != nil {
+			return false
+		}
+		h.Write(x.msg[:cut])
+		s1 := h.Sum(nil)
+		s2 := h.Sum(make([]byte, 0, 80))
+		c.Eval(1)
+		if !bytes.Equal(s1, s2) {
+			return bad("Sum in the middle of a stream is not idempotent", cut, s2)
+		}
+		clobber(s1)
+		clobber(s2)
+		h.Write(x.msg[cut:])
+		if got := h.Sum(nil); !bytes.Equal(got, x.want) {
+			return bad("Sum in the middle of a stream alters the running state", cut, got)
+		}
+		return true
+	}
+	if x.full {
+		for cut := 0; cut <= L; cut++ {
+			if !midSum(cut) {
+				return false
+			}
+		}
+	} else {
+		for _, cut := range [...]int{0, 1, B - 1, B, B + 1, 2 * B, 2*B + 1, L - 1, L} {
+			if cut >= 0 && cut <= L && !midSum(cut) {
+				return false
+			}
+		}
+	}
+	// Reset from the state "L junk bytes absorbed" (with a Sum before the Reset for odd L)
+	h, err := a.newHash(x.cf.size, x.cf.key)
+	if err != nil {
+		return false
+	}
+	junk := make([]byte, L)
+	for i := range junk {
+		junk[i] = ^x.msg[i] ^ byte(i)
+	}
+	h.Write(junk)
+	if L&1 == 1 {
+		h.Sum(nil)
+	}
+	h.Reset()
+	h.Write(x.msg)
+	c.Eval(1)
+	if got := h.Sum(nil); !bytes.Equal(got, x.want) {
+		return bad("Reset of a used object does not restore the keyed initial state", L, got)
+	}
+	return true
+}
+
+func clobber(b []byte) {
+	for i := range b {
+		b[i] ^= 0xFF
+	}
 }
 
 // ---------------------------------------------------------------- section C
@@ -480,10 +588,13 @@ func sectionC(c *vf.Ctx, a *alg, path string) {
 				for _, o := range hist {
 					switch o.kind {
 					case 'W':
-						n, err := h.Write(stream[pos : pos+o.n])
+						// the caller owns the buffer: private copy, overwritten after the call
+						p := append([]byte(nil), stream[pos:pos+o.n]...)
+						n, err := h.Write(p)
 						if n != o.n || err != nil {
 							return "", true, "Write return value wrong in history"
 						}
+						clobber(p)
 						pos += o.n
 					case 'R':
 						h.Reset()
@@ -496,6 +607,8 @@ func sectionC(c *vf.Ctx, a *alg, path string) {
 						if len(got) != 3+cf.size || string(got[:3]) != "pfx" || !bytes.Equal(got[3:], want) {
 							return "", true, "history: Sum != RFC 7693 digest of bytes written since Reset"
 						}
+						clobber(got) // the result (and the spare capacity behind it) is the caller's
+						clobber(got[:cap(got)])
 					}
 				}
 				// final observation so that Write/Reset as last operation are observed as well
